@@ -272,7 +272,7 @@ class ConfTor(FakeTor):
         FakeTor.__init__(self, conf=store, **kw)
         self.table = table
         self.no_config_defaults = bool(no_defaults)
-        self.echo = bool(echo)
+        self.echo = echo if echo in ("before", "after") else ("after" if echo else False)
         self.emit_conf_changed = False        # the base class' echo is replaced by ours
         self.events_sent = []
 
@@ -330,7 +330,11 @@ class ConfTor(FakeTor):
         if rep[0] == 250 and self.echo and "CONF_CHANGED" in self.subscribed:
             changed = {k for k in self.conf.options if self.conf.get(k) != before.get(k, [])}
             if changed:
-                self.outbox_after = self.conf_changed(changed)
+                if self.echo == "before":
+                    # Tor versions that send events synchronously: the event precedes the 250 OK
+                    self.outbox += self.conf_changed(changed)
+                else:
+                    self.outbox_after = self.conf_changed(changed)
         return rep
 
 
